@@ -177,12 +177,39 @@ class BitStringPayloadDecoder(AbstractSimplePayloadDecoder):
     protoComponent = univ.BitString(())
     supportConstructedForm = True
 
+    def _appendFragment(self, bitString, component):
+        if isinstance(component, univ.BitString):
+            # a constructed fragment, assembled already
+            fragment = univ.SizedInteger(component.asInteger()).setBitLength(len(component))
+
+            return univ.SizedInteger(
+                (bitString << len(fragment)) | fragment
+            ).setBitLength(len(bitString) + len(fragment))
+
+        if not component:
+            raise error.PyAsn1Error('Empty BIT STRING fragment')
+
+        trailingBits = oct2int(component[0])
+        if trailingBits > 7 or trailingBits and len(component) == 1:
+            raise error.PyAsn1Error(
+                'Trailing bits overflow %s' % trailingBits
+            )
+
+        return self.protoComponent.fromOctetString(
+            component[1:], internalFormat=True,
+            prepend=bitString, padding=trailingBits
+        )
+
     def valueDecoder(self, substrate, asn1Spec,
                      tagSet=None, length=None, state=None,
                      decodeFun=None, substrateFun=None,
                      **options):
 
-        if substrateFun:
+        # a fragment that is itself constructed is assembled like the
+        # string it belongs to, only primitive fragments are collected raw
+        if substrateFun and (
+                substrateFun is not self.substrateCollector or
+                tagSet[0].tagFormat == tag.tagFormatSimple):
             asn1Object = self._createComponent(asn1Spec, tagSet, noValue, **options)
 
             for chunk in substrateFun(asn1Object, substrate, length, options):
@@ -237,19 +264,7 @@ class BitStringPayloadDecoder(AbstractSimplePayloadDecoder):
                 if isinstance(component, SubstrateUnderrunError):
                     yield component
 
-            if not component:
-                raise error.PyAsn1Error('Empty BIT STRING fragment')
-
-            trailingBits = oct2int(component[0])
-            if trailingBits > 7 or trailingBits and len(component) == 1:
-                raise error.PyAsn1Error(
-                    'Trailing bits overflow %s' % trailingBits
-                )
-
-            bitString = self.protoComponent.fromOctetString(
-                component[1:], internalFormat=True,
-                prepend=bitString, padding=trailingBits
-            )
+            bitString = self._appendFragment(bitString, component)
 
         yield self._createComponent(asn1Spec, tagSet, bitString, **options)
 
@@ -258,7 +273,7 @@ class BitStringPayloadDecoder(AbstractSimplePayloadDecoder):
                              decodeFun=None, substrateFun=None,
                              **options):
 
-        if substrateFun:
+        if substrateFun and substrateFun is not self.substrateCollector:
             asn1Object = self._createComponent(asn1Spec, tagSet, noValue, **options)
 
             for chunk in substrateFun(asn1Object, substrate, length, options):
@@ -286,19 +301,7 @@ class BitStringPayloadDecoder(AbstractSimplePayloadDecoder):
             if component is eoo.endOfOctets:
                 break
 
-            if not component:
-                raise error.PyAsn1Error('Empty BIT STRING fragment')
-
-            trailingBits = oct2int(component[0])
-            if trailingBits > 7 or trailingBits and len(component) == 1:
-                raise error.PyAsn1Error(
-                    'Trailing bits overflow %s' % trailingBits
-                )
-
-            bitString = self.protoComponent.fromOctetString(
-                component[1:], internalFormat=True,
-                prepend=bitString, padding=trailingBits
-            )
+            bitString = self._appendFragment(bitString, component)
 
         yield self._createComponent(asn1Spec, tagSet, bitString, **options)
 
@@ -315,7 +318,11 @@ class OctetStringPayloadDecoder(AbstractSimplePayloadDecoder):
                      tagSet=None, length=None, state=None,
                      decodeFun=None, substrateFun=None,
                      **options):
-        if substrateFun:
+        # a fragment that is itself constructed is assembled like the
+        # string it belongs to, only primitive fragments are collected raw
+        if substrateFun and (
+                substrateFun is not self.substrateCollector or
+                tagSet[0].tagFormat == tag.tagFormatSimple):
             asn1Object = self._createComponent(asn1Spec, tagSet, noValue, **options)
 
             for chunk in substrateFun(asn1Object, substrate, length, options):
